@@ -2,15 +2,36 @@
 //! DESIGN.md §6 C11.  The model computes the *set* of admissible outcomes
 //! (boundary finishes may be attributed to either adjacent step; several
 //! softwares failing in one step may be reported in either order).
+//!
+//! Two oracles run side by side:
+//!
+//! * **outcome model** — a set-valued reference model stepped in lock-step with
+//!   the simulation.  A *world* is the set of boundary events that were deferred
+//!   to the next step; `Model::step` maps a world to every admissible
+//!   `(output, next world)` pair.  `run()` phases are compared against the
+//!   terminal results reachable from the current worlds, `step()` phases are
+//!   compared step by step; the worlds that do not agree with what was observed
+//!   (result and completion flags of the main futures) are dropped.
+//! * **poll oracle** — every future of every software (main future and every
+//!   task it spawns, with `spawn_local` or `tokio::spawn`) is wrapped in a
+//!   [`Probe`] that knows which *incarnation* of the software it belongs to.
+//!   Once an incarnation finished (main future returned and the step ended),
+//!   was crashed, or was replaced by a bounce, no probe of it may ever be
+//!   polled again — whatever the controller does afterwards (crash, bounce,
+//!   crash+bounce at arbitrary steps, further `run()` calls).
 
 use crate::engine::{replay_as, Ctx, Outcome, Tier};
 use proptest::prelude::*;
 use serde::{Deserialize, Serialize};
 use serde_json::Value;
-use std::cell::Cell;
 use std::collections::BTreeSet;
+use std::future::Future;
+use std::net::{IpAddr, Ipv4Addr};
 use std::panic::{catch_unwind, AssertUnwindSafe};
-use std::rc::Rc;
+use std::pin::Pin;
+use std::sync::atomic::{AtomicU32, AtomicU64, Ordering::Relaxed};
+use std::sync::{Arc, Mutex};
+use std::task::{Context, Poll};
 use std::time::{Duration, SystemTime};
 
 pub const PROP: super::Prop = super::Prop {
@@ -30,6 +51,29 @@ pub enum Kind {
     PanicSpawned,
 }
 
+#[derive(Clone, Copy, Debug, Serialize, Deserialize, PartialEq, Eq)]
+pub enum TaskKind {
+    /// wakes every millisecond for ever
+    Ticker,
+    /// the main future binds a TCP listener on its own port and hands it to a task that accepts for ever
+    Tcp,
+    /// same with a UDP socket and `recv_from`
+    Udp,
+    /// "time bomb": panics `t_ms` after the software started
+    Bomb,
+}
+
+/// A task the software spawns in the first poll of its main future; it outlives the main future.
+#[derive(Clone, Debug, Serialize, Deserialize)]
+pub struct Task {
+    pub kind: TaskKind,
+    #[serde(default)]
+    pub t_ms: u32,
+    /// `tokio::task::spawn_local` (true) or `tokio::spawn` (false)
+    #[serde(default)]
+    pub local: bool,
+}
+
 #[derive(Clone, Debug, Serialize, Deserialize)]
 pub struct Sw {
     pub client: bool,
@@ -37,19 +81,44 @@ pub struct Sw {
     pub kind: Kind,
     /// spawn a background ticker that outlives the main future
     pub bg: bool,
+    #[serde(default)]
+    pub tasks: Vec<Task>,
+}
+
+#[derive(Clone, Copy, Debug, Serialize, Deserialize, PartialEq, Eq)]
+pub enum CtlKind {
+    Crash,
+    Bounce,
+    CrashBounce,
+}
+
+/// Controller action in the middle of a step-mode phase: after `at` steps of the phase.
+#[derive(Clone, Debug, Serialize, Deserialize)]
+pub struct Ctl {
+    pub at: u32,
+    pub kind: CtlKind,
+    /// index into the hosts registered so far (modulo their number)
+    pub host: usize,
 }
 
 #[derive(Clone, Debug, Serialize, Deserialize)]
 pub struct Phase {
     pub register: Vec<Sw>,
-    /// indices (into all softwares registered so far) of hosts to crash before running
+    /// hosts to crash before running (index into the hosts registered so far, modulo their number)
     pub crash: Vec<usize>,
-    /// true: call run(); false: emulate run() with step() and sample progress
+    /// true: call run(); false: step() loop
     pub use_run: bool,
-    /// indices of hosts to bounce (restart) before running: the software starts again, with
-    /// its outcome time counted from now
+    /// hosts to bounce (restart) before running, after the crashes: the software starts again,
+    /// with its outcome time counted from now
     #[serde(default)]
     pub bounce: Vec<usize>,
+    /// step mode only: 0 = step until step() reports completion (emulates run());
+    /// n > 0 = call step() exactly n times, whatever it reports (stops at an error or panic)
+    #[serde(default)]
+    pub steps: u32,
+    /// step mode only: crash / bounce / crash+bounce between two steps of the phase
+    #[serde(default)]
+    pub ops: Vec<Ctl>,
 }
 
 #[derive(Clone, Debug, Serialize, Deserialize)]
@@ -61,6 +130,10 @@ pub struct Scenario {
     pub phases: Vec<Phase>,
 }
 
+// ------------------------------------------------------------------------------------------
+// reference model
+// ------------------------------------------------------------------------------------------
+
 #[derive(Clone, Debug, PartialEq, Eq, PartialOrd, Ord)]
 enum Res {
     Ok(u64),
@@ -69,121 +142,379 @@ enum Res {
     Panic(u64),
 }
 
-struct Live {
-    idx: usize,
-    client: bool,
-    kind: Kind,
-    /// candidate absolute finish steps (1 or 2 entries); empty = never
-    cand: Vec<u64>,
-    crashed: bool,
-    /// finished in an earlier phase: never polled again, counts as done
-    finished: bool,
+/// What one step may report.
+#[derive(Clone, Debug, PartialEq, Eq, PartialOrd, Ord)]
+enum Out {
+    Done(bool),
+    ErrSw(usize),
+    ErrDuration,
+    Panic,
 }
 
-/// All admissible results of one phase starting after `e` steps.
-fn admissible(live: &[Live], e: u64, tick: u64, dur: u64, use_run: bool) -> BTreeSet<Res> {
-    let mut out = BTreeSet::new();
-    // run() looks at all registered clients, finished or not
-    let any_client = live.iter().any(|l| l.client);
-    if !any_client && use_run {
-        out.insert(Res::Ok(e));
-        return out;
+/// An event of the current incarnation of a software: it happens in step `first`, or — when its
+/// virtual time is exactly a step boundary (`amb`) — in step `first` or `first + 1`.
+#[derive(Clone, Debug)]
+struct Ev {
+    first: u64,
+    amb: bool,
+}
+
+fn ev(start: u64, t: u64, tick: u64) -> Ev {
+    if t == 0 {
+        Ev { first: start + 1, amb: false }
+    } else if t % tick == 0 {
+        Ev { first: start + t / tick, amb: true }
+    } else {
+        Ev { first: start + t.div_ceil(tick), amb: false }
     }
-    // enumerate the choice for every ambiguous software
-    let amb: Vec<usize> = live
-        .iter()
-        .enumerate()
-        .filter(|(_, l)| l.cand.len() == 2 && !l.crashed && !l.finished)
-        .map(|(i, _)| i)
-        .collect();
-    let combos = 1u64 << amb.len().min(16);
-    for mask in 0..combos {
-        let fin = |i: usize| -> Option<u64> {
-            let l = &live[i];
-            if l.finished {
-                return Some(0);
-            }
-            if l.crashed || l.cand.is_empty() {
-                return None;
-            }
-            if l.cand.len() == 1 {
-                return Some(l.cand[0]);
-            }
-            let pos = amb.iter().position(|a| *a == i).unwrap();
-            Some(l.cand[((mask >> pos) & 1) as usize])
+}
+
+/// (software, 0 = main future | 1 + j = j-th time bomb)
+type EvId = (usize, usize);
+/// The boundary events that did not happen in their first step and therefore happen in the next.
+type World = BTreeSet<EvId>;
+
+#[derive(Clone, Debug)]
+struct MSw {
+    client: bool,
+    /// main future of the current incarnation (Ok / Err / Panic) and its finish step;
+    /// None: never finishes, or the host is crashed
+    main: Option<(Kind, Ev)>,
+    /// panics in spawned tasks; they only go off while the software is still running
+    bombs: Vec<Ev>,
+}
+
+impl MSw {
+    fn start(sw: &Sw, start: u64, tick: u64) -> (MSw, bool) {
+        let mut boundary = false;
+        let mut mk = |t: u32| {
+            let e = ev(start, t as u64, tick);
+            boundary |= e.amb;
+            e
         };
-        let mut k = e;
-        loop {
-            k += 1;
-            let finishing: Vec<usize> = (0..live.len()).filter(|i| fin(*i) == Some(k)).collect();
-            let panics: Vec<usize> = finishing
-                .iter()
-                .copied()
-                .filter(|i| matches!(live[*i].kind, Kind::Panic | Kind::PanicSpawned))
-                .collect();
-            let errs: Vec<usize> = finishing
-                .iter()
-                .copied()
-                .filter(|i| live[*i].kind == Kind::Err)
-                .collect();
-            if !panics.is_empty() || !errs.is_empty() {
-                if !panics.is_empty() {
-                    out.insert(Res::Panic(k));
-                }
-                for i in errs {
-                    out.insert(Res::ErrSw(live[i].idx, k));
-                }
-                break;
-            }
-            // a software already past its finish step is done; clients done?
-            let clients_done = live.iter().enumerate().filter(|(_, l)| l.client).all(|(i, l)| {
-                l.kind == Kind::Ok && fin(i).map(|f| f <= k).unwrap_or(false)
-            });
-            if clients_done {
-                out.insert(Res::Ok(k));
-                break;
-            }
-            if k * tick > dur {
-                out.insert(Res::ErrDuration(k));
-                break;
+        let main = match sw.kind {
+            Kind::Never | Kind::PanicSpawned => None,
+            k => Some((k, mk(sw.t_ms))),
+        };
+        let mut bombs = Vec::new();
+        if sw.kind == Kind::PanicSpawned {
+            bombs.push(mk(sw.t_ms));
+        }
+        for t in &sw.tasks {
+            if t.kind == TaskKind::Bomb {
+                bombs.push(mk(t.t_ms));
             }
         }
+        (MSw { client: sw.client, main, bombs }, boundary)
     }
-    out
+    fn stop(&mut self) {
+        self.main = None;
+        self.bombs.clear();
+    }
 }
 
-struct Handle {
-    progress: Rc<Cell<u64>>,
-    done: Rc<Cell<bool>>,
-    frozen_at: Option<u64>,
+/// Has the event happened by the end of step `k`, in the world `after` that follows step `k`?
+fn fired_by_end(e: &Ev, id: EvId, k: u64, after: &World) -> bool {
+    e.first < k || (e.first == k && !after.contains(&id))
 }
 
-fn software(
-    sw: Sw,
-    idx: usize,
-    progress: Rc<Cell<u64>>,
-    done: Rc<Cell<bool>>,
-) -> impl std::future::Future<Output = turmoil::Result> + 'static {
-    async move {
-        if sw.bg {
-            let p = progress.clone();
-            tokio::task::spawn_local(async move {
-                loop {
-                    tokio::time::sleep(Duration::from_millis(1)).await;
-                    p.set(p.get() + 1);
+struct Model {
+    tick: u64,
+    dur: u64,
+    sws: Vec<MSw>,
+}
+
+impl Model {
+    /// Every admissible (output, next world) of step `k` entered in world `d`.
+    /// None: too many simultaneous boundary events to enumerate.
+    fn step(&self, d: &World, k: u64) -> Option<BTreeSet<(Out, World)>> {
+        let mut must: Vec<EvId> = Vec::new();
+        let mut may: Vec<EvId> = Vec::new();
+        for (i, s) in self.sws.iter().enumerate() {
+            let mut consider = |id: EvId, e: &Ev| {
+                if d.contains(&id) {
+                    must.push(id);
+                } else if e.first == k {
+                    if e.amb {
+                        may.push(id);
+                    } else {
+                        must.push(id);
+                    }
                 }
+            };
+            if let Some((_, e)) = &s.main {
+                consider((i, 0), e);
+            }
+            for (j, b) in s.bombs.iter().enumerate() {
+                consider((i, j + 1), b);
+            }
+        }
+        if may.len() > 10 {
+            return None;
+        }
+        let mut res = BTreeSet::new();
+        for mask in 0..(1u32 << may.len()) {
+            let mut firing = must.clone();
+            let mut d2 = World::new();
+            for (p, id) in may.iter().enumerate() {
+                if (mask >> p) & 1 == 1 {
+                    firing.push(*id);
+                } else {
+                    d2.insert(*id);
+                }
+            }
+            let mut panic_sw = BTreeSet::new();
+            let mut err_sw = BTreeSet::new();
+            for (i, j) in &firing {
+                let s = &self.sws[*i];
+                if *j == 0 {
+                    match s.main.as_ref().map(|m| m.0) {
+                        Some(Kind::Panic) => {
+                            panic_sw.insert(*i);
+                        }
+                        Some(Kind::Err) => {
+                            err_sw.insert(*i);
+                        }
+                        _ => {}
+                    }
+                } else {
+                    // a spawned task is only polled while its software runs: the main future must
+                    // not have finished in an earlier step (finishing in this very step is fine:
+                    // the rest of the tick still runs the software's tasks)
+                    let finished_before = match &s.main {
+                        Some((_, e)) => e.first < k && !d.contains(&(*i, 0)),
+                        None => false,
+                    };
+                    if !finished_before {
+                        panic_sw.insert(*i);
+                    }
+                }
+            }
+            if !panic_sw.is_empty() || !err_sw.is_empty() {
+                if !panic_sw.is_empty() {
+                    res.insert((Out::Panic, d2.clone()));
+                }
+                for i in err_sw {
+                    // a panic in the same software in the same tick unwinds before the result is collected
+                    if !panic_sw.contains(&i) {
+                        res.insert((Out::ErrSw(i), d2.clone()));
+                    }
+                }
+                continue;
+            }
+            let clients_done = self.sws.iter().enumerate().filter(|(_, s)| s.client).all(|(i, s)| match &s.main {
+                Some((Kind::Ok, e)) => fired_by_end(e, (i, 0), k, &d2),
+                _ => false,
             });
+            let out = if k * self.tick > self.dur && !clients_done {
+                Out::ErrDuration
+            } else {
+                Out::Done(clients_done)
+            };
+            res.insert((out, d2));
+        }
+        Some(res)
+    }
+
+    /// Does world `w` (after step `k`) agree with the observed completion of the Ok main futures?
+    fn consistent(&self, w: &World, k: u64, done: &[bool]) -> bool {
+        self.sws.iter().enumerate().all(|(i, s)| match &s.main {
+            Some((Kind::Ok, e)) => fired_by_end(e, (i, 0), k, w) == done[i],
+            _ => true,
+        })
+    }
+
+    /// All terminal results of `run()` started after `e` steps in one of the worlds `fr`,
+    /// each with the world it leaves behind.
+    fn run_offline(&self, fr: &BTreeSet<World>, e: u64) -> Option<Vec<(Res, World)>> {
+        let mut term = Vec::new();
+        let mut fr = fr.clone();
+        let mut k = e;
+        while !fr.is_empty() {
+            k += 1;
+            let mut next = BTreeSet::new();
+            for w in &fr {
+                for (o, w2) in self.step(w, k)? {
+                    match o {
+                        Out::Done(false) => {
+                            next.insert(w2);
+                        }
+                        Out::Done(true) => term.push((Res::Ok(k), w2)),
+                        Out::ErrDuration => term.push((Res::ErrDuration(k), w2)),
+                        Out::ErrSw(i) => term.push((Res::ErrSw(i, k), w2)),
+                        Out::Panic => term.push((Res::Panic(k), w2)),
+                    }
+                }
+            }
+            fr = next;
+        }
+        Some(term)
+    }
+}
+
+// ------------------------------------------------------------------------------------------
+// software under the simulation
+// ------------------------------------------------------------------------------------------
+
+/// Shared between the harness and every future of one software.
+struct SwState {
+    idx: usize,
+    /// number of times the software was started = number of the current incarnation (1-based)
+    inc: AtomicU32,
+    /// incarnations <= this finished, were crashed or were replaced: never to be polled again
+    dead_upto: AtomicU32,
+    /// incarnation whose main future has returned (Ok or Err); 0 = none yet
+    main_done: AtomicU32,
+    polls: AtomicU64,
+    dead_polls: AtomicU64,
+    first_dead_poll: Mutex<Option<String>>,
+}
+
+impl SwState {
+    fn kill_upto(&self, inc: u32) {
+        self.dead_upto.fetch_max(inc, Relaxed);
+    }
+    fn done(&self) -> bool {
+        let inc = self.inc.load(Relaxed);
+        inc > 0 && self.main_done.load(Relaxed) == inc
+    }
+}
+
+/// Records every poll of a future of incarnation `inc`.
+struct Probe<F> {
+    st: Arc<SwState>,
+    inc: u32,
+    what: &'static str,
+    inner: Pin<Box<F>>,
+}
+
+fn probe<F: Future>(st: &Arc<SwState>, inc: u32, what: &'static str, f: F) -> Probe<F> {
+    Probe { st: st.clone(), inc, what, inner: Box::pin(f) }
+}
+
+impl<F: Future> Future for Probe<F> {
+    type Output = F::Output;
+    fn poll(self: Pin<&mut Self>, cx: &mut Context<'_>) -> Poll<F::Output> {
+        let me = self.get_mut();
+        me.st.polls.fetch_add(1, Relaxed);
+        let dead = me.st.dead_upto.load(Relaxed);
+        if me.inc <= dead {
+            me.st.dead_polls.fetch_add(1, Relaxed);
+            let mut g = me.st.first_dead_poll.lock().unwrap();
+            if g.is_none() {
+                *g = Some(format!(
+                    "software s{} incarnation {} ({} task) was polled although incarnations <= {} are finished / crashed / replaced (current incarnation {})",
+                    me.st.idx,
+                    me.inc,
+                    me.what,
+                    dead,
+                    me.st.inc.load(Relaxed)
+                ));
+            }
+        }
+        me.inner.as_mut().poll(cx)
+    }
+}
+
+fn spawn_task<F: Future<Output = ()> + Send + 'static>(local: bool, f: F) {
+    if local {
+        tokio::task::spawn_local(f);
+    } else {
+        tokio::spawn(f);
+    }
+}
+
+const PORT0: u16 = 9000;
+
+/// Called once per incarnation: directly for a client, by the host factory on registration and
+/// on every bounce.
+fn software(sw: Sw, idx: usize, st: Arc<SwState>) -> impl Future<Output = turmoil::Result> + 'static {
+    let inc = st.inc.fetch_add(1, Relaxed) + 1;
+    // whatever ran before belongs to a replaced incarnation
+    st.kill_upto(inc - 1);
+    let st2 = st.clone();
+    probe(&st, inc, "main", async move {
+        let st = st2;
+        if sw.bg {
+            spawn_task(
+                true,
+                probe(&st, inc, "ticker", async move {
+                    loop {
+                        tokio::time::sleep(Duration::from_millis(1)).await;
+                    }
+                }),
+            );
+        }
+        for (j, t) in sw.tasks.iter().enumerate() {
+            let port = PORT0 + j as u16;
+            match t.kind {
+                TaskKind::Ticker => spawn_task(
+                    t.local,
+                    probe(&st, inc, "ticker", async move {
+                        loop {
+                            tokio::time::sleep(Duration::from_millis(1)).await;
+                        }
+                    }),
+                ),
+                TaskKind::Tcp => {
+                    let l = match turmoil::net::TcpListener::bind((IpAddr::V4(Ipv4Addr::UNSPECIFIED), port)).await {
+                        Ok(l) => l,
+                        Err(e) => {
+                            st.main_done.store(inc, Relaxed);
+                            let r: turmoil::Result = Err(format!("B{idx} tcp port {port}: {e}").into());
+                            return r;
+                        }
+                    };
+                    spawn_task(
+                        t.local,
+                        probe(&st, inc, "tcp-listener", async move {
+                            loop {
+                                let _ = l.accept().await;
+                            }
+                        }),
+                    );
+                }
+                TaskKind::Udp => {
+                    let s = match turmoil::net::UdpSocket::bind((IpAddr::V4(Ipv4Addr::UNSPECIFIED), port)).await {
+                        Ok(s) => s,
+                        Err(e) => {
+                            st.main_done.store(inc, Relaxed);
+                            let r: turmoil::Result = Err(format!("B{idx} udp port {port}: {e}").into());
+                            return r;
+                        }
+                    };
+                    spawn_task(
+                        t.local,
+                        probe(&st, inc, "udp-socket", async move {
+                            let mut buf = [0u8; 8];
+                            loop {
+                                let _ = s.recv_from(&mut buf).await;
+                            }
+                        }),
+                    );
+                }
+                TaskKind::Bomb => {
+                    let d = Duration::from_millis(t.t_ms as u64);
+                    spawn_task(
+                        t.local,
+                        probe(&st, inc, "bomb", async move {
+                            tokio::time::sleep(d).await;
+                            panic!("PB{idx}");
+                        }),
+                    );
+                }
+            }
         }
         let d = Duration::from_millis(sw.t_ms as u64);
         match sw.kind {
             Kind::Ok => {
                 tokio::time::sleep(d).await;
-                done.set(true);
+                st.main_done.store(inc, Relaxed);
                 Ok(())
             }
             Kind::Err => {
                 tokio::time::sleep(d).await;
-                done.set(true);
+                st.main_done.store(inc, Relaxed);
                 Err(format!("E{idx}"))?
             }
             Kind::Never => std::future::pending().await,
@@ -192,18 +523,270 @@ fn software(
                 panic!("P{idx}");
             }
             Kind::PanicSpawned => {
-                tokio::task::spawn_local(async move {
-                    tokio::time::sleep(d).await;
-                    panic!("PS{idx}");
-                });
+                spawn_task(
+                    true,
+                    probe(&st, inc, "bomb", async move {
+                        tokio::time::sleep(d).await;
+                        panic!("PS{idx}");
+                    }),
+                );
                 std::future::pending().await
             }
         }
+    })
+}
+
+// ------------------------------------------------------------------------------------------
+// interpreter + oracle
+// ------------------------------------------------------------------------------------------
+
+struct Track {
+    sw: Sw,
+    st: Arc<SwState>,
+    crashed: bool,
+}
+
+impl Track {
+    fn leftovers(&self) -> bool {
+        self.sw.bg || !self.sw.tasks.is_empty()
+    }
+}
+
+enum Obs {
+    Panic,
+    Ok(bool),
+    Err(String),
+}
+
+struct Run<'a> {
+    sim: turmoil::Sim<'a>,
+    m: Model,
+    tr: Vec<Track>,
+    fr: BTreeSet<World>,
+    /// steps executed so far
+    e: u64,
+    out: Outcome,
+    lifecycle: bool,
+}
+
+impl Run<'_> {
+    fn dead_poll(&mut self) -> bool {
+        for t in &self.tr {
+            if t.st.dead_polls.load(Relaxed) > 0 {
+                let d = t.st.first_dead_poll.lock().unwrap().clone().unwrap_or_default();
+                self.out.fail(
+                    "finished-or-crashed-software-polled-again",
+                    format!("{d}; {} such polls after {} steps", t.st.dead_polls.load(Relaxed), self.e),
+                );
+                return true;
+            }
+        }
+        false
+    }
+
+    /// Softwares whose main future returned are finished from the end of the step on.
+    fn bury_finished(&mut self) {
+        for t in &self.tr {
+            if t.st.done() {
+                t.st.kill_upto(t.st.inc.load(Relaxed));
+            }
+        }
+    }
+
+    fn done_flags(&self) -> Vec<bool> {
+        self.tr.iter().map(|t| t.st.done()).collect()
+    }
+
+    fn host_at(&self, c: usize) -> Option<usize> {
+        let hosts: Vec<usize> = (0..self.tr.len()).filter(|i| !self.tr[*i].sw.client).collect();
+        if hosts.is_empty() {
+            None
+        } else {
+            Some(hosts[c % hosts.len()])
+        }
+    }
+
+    /// crash and/or bounce host `c`; returns false if a violation was recorded
+    fn ctl(&mut self, kind: CtlKind, c: usize, mid: bool) -> bool {
+        let Some(h) = self.host_at(c) else { return true };
+        let name = format!("s{h}");
+        let tick = self.m.tick;
+        if mid {
+            self.out.label("mid-phase-op");
+        }
+        if matches!(kind, CtlKind::Crash | CtlKind::CrashBounce) {
+            let state = if self.tr[h].crashed {
+                "crashed"
+            } else if self.tr[h].st.done() {
+                "finished"
+            } else {
+                "running"
+            };
+            self.out.label(format!("crash-of-{state}-host"));
+            if state != "running" {
+                self.lifecycle = true;
+            }
+            self.sim.crash(name.clone());
+            self.tr[h].st.kill_upto(self.tr[h].st.inc.load(Relaxed));
+            self.tr[h].crashed = true;
+            self.m.sws[h].stop();
+            for w in std::mem::take(&mut self.fr) {
+                self.fr.insert(w.into_iter().filter(|id| id.0 != h).collect());
+            }
+            self.out.label("crashed-host");
+            if self.dead_poll() {
+                return false;
+            }
+        }
+        if matches!(kind, CtlKind::Bounce | CtlKind::CrashBounce) {
+            let state = if self.tr[h].crashed {
+                "crashed"
+            } else if self.tr[h].st.done() {
+                "finished"
+            } else {
+                "running"
+            };
+            self.out.label(format!("bounce-of-{state}-host"));
+            if self.tr[h].leftovers() {
+                self.out.label(format!("bounce-of-{state}-host-with-spawned-tasks"));
+                self.lifecycle = true;
+            }
+            if state != "running" {
+                self.lifecycle = true;
+            }
+            if self.tr[h].sw.tasks.iter().any(|t| matches!(t.kind, TaskKind::Tcp | TaskKind::Udp)) {
+                self.out.label("port-rebind-after-restart");
+            }
+            let before = self.tr[h].st.inc.load(Relaxed);
+            self.sim.bounce(name);
+            if self.tr[h].st.inc.load(Relaxed) != before + 1 {
+                self.out.fail(
+                    "bounce-did-not-start-software-exactly-once",
+                    format!("bounce of s{h}: software started {} times", self.tr[h].st.inc.load(Relaxed) - before),
+                );
+                return false;
+            }
+            self.tr[h].crashed = false;
+            let (ms, _) = MSw::start(&self.tr[h].sw, self.e, tick);
+            self.m.sws[h] = ms;
+            for w in std::mem::take(&mut self.fr) {
+                self.fr.insert(w.into_iter().filter(|id| id.0 != h).collect());
+            }
+            self.out.label("bounced-host");
+            if matches!(self.tr[h].sw.kind, Kind::Panic | Kind::PanicSpawned)
+                || self.tr[h].sw.tasks.iter().any(|t| t.kind == TaskKind::Bomb)
+            {
+                self.out.label("panic-in-restarted-host");
+            }
+            if self.dead_poll() {
+                return false;
+            }
+        }
+        true
+    }
+
+    fn classify_err(&mut self, msg: &str, may_panic: bool) -> Option<Out> {
+        if msg.starts_with("Ran for duration") {
+            Some(Out::ErrDuration)
+        } else if let Some(n) = msg.strip_prefix('E').and_then(|s| s.parse::<usize>().ok()) {
+            Some(Out::ErrSw(n))
+        } else if msg.starts_with('B') {
+            self.out.fail(
+                "bind-failed-port-held-by-finished-or-crashed-software",
+                format!("a freshly (re)started software could not bind its own port: {msg:?}; nothing else on that host may still be running"),
+            );
+            None
+        } else if may_panic {
+            self.out.fail(
+                "software-panic-returned-as-error-instead-of-unwinding",
+                format!("run returned Err({msg:?}) where a host/client panic had to surface as a panic of the caller"),
+            );
+            None
+        } else {
+            self.out.fail("unknown-error", format!("run returned unexpected error {msg:?}"));
+            None
+        }
+    }
+
+    /// One observed step of a step-mode phase.  Ok(Some(obs)): consistent, continue;
+    /// Ok(None): the model gave up (too ambiguous); Err(()): violation recorded.
+    fn one_step(&mut self, pi: usize) -> Result<Option<Obs>, ()> {
+        let k = self.e + 1;
+        let mut cand: BTreeSet<(Out, World)> = BTreeSet::new();
+        for w in &self.fr {
+            match self.m.step(w, k) {
+                Some(r) => cand.extend(r),
+                None => return Ok(None),
+            }
+        }
+        let sim = &mut self.sim;
+        let got = catch_unwind(AssertUnwindSafe(|| sim.step().map_err(|e| e.to_string())));
+        if got.is_err() {
+            crate::engine::take_last_panic();
+        }
+        if self.dead_poll() {
+            return Err(());
+        }
+        let outs: BTreeSet<Out> = cand.iter().map(|c| c.0.clone()).collect();
+        let may_panic = outs.contains(&Out::Panic);
+        let (obs, o) = match got {
+            Err(_) => (Obs::Panic, Out::Panic),
+            Ok(Ok(b)) => (Obs::Ok(b), Out::Done(b)),
+            Ok(Err(msg)) => match self.classify_err(&msg, may_panic) {
+                Some(o) => (Obs::Err(msg), o),
+                None => return Err(()),
+            },
+        };
+        if !outs.contains(&o) {
+            let sig = match &o {
+                Out::ErrDuration if outs.contains(&Out::Done(true)) => "duration-error-but-clients-finished-in-time",
+                Out::ErrDuration => "duration-error-unexpected",
+                Out::Done(true) if outs.contains(&Out::Done(false)) => "completion-reported-before-all-clients-finished",
+                Out::Done(true) => "ok-but-model-says-error",
+                Out::Done(false) if outs.contains(&Out::Done(true)) => "completion-not-reported",
+                Out::Done(false) if outs.contains(&Out::ErrDuration) => "duration-exceeded-but-no-error",
+                Out::Done(false) if outs.contains(&Out::Panic) => "panic-swallowed",
+                Out::Done(false) => "software-error-swallowed",
+                Out::ErrSw(_) => "software-error-unexpected",
+                Out::Panic => "panic-unexpected",
+            };
+            self.out.fail(
+                sig,
+                format!("phase {pi}: step {k} reported {o:?}, admissible {outs:?} (elapsed {:?})", self.sim.elapsed()),
+            );
+            return Err(());
+        }
+        if let Obs::Ok(_) = obs {
+            self.e = k;
+            let el = self.sim.elapsed().as_millis() as u64;
+            if el != k * self.m.tick {
+                self.out.fail(
+                    "elapsed-not-multiple-of-tick",
+                    format!("after {k} steps of {}ms elapsed is {el}ms", self.m.tick),
+                );
+                return Err(());
+            }
+            let done = self.done_flags();
+            let next: BTreeSet<World> = cand
+                .into_iter()
+                .filter(|(c, w)| *c == o && self.m.consistent(w, k, &done))
+                .map(|(_, w)| w)
+                .collect();
+            if next.is_empty() {
+                self.out.fail(
+                    "finish-step-outside-model-window",
+                    format!("phase {pi}: after step {k} ({o:?}) the main futures that have returned are {done:?}; no admissible attribution of the finishes to steps matches"),
+                );
+                return Err(());
+            }
+            self.fr = next;
+        }
+        self.bury_finished();
+        Ok(Some(obs))
     }
 }
 
 pub fn run(sc: &Scenario) -> Outcome {
-    let mut out = Outcome::ok();
     let tick = sc.tick_ms.max(1) as u64;
     let dur = sc.duration_ms as u64;
     let mut b = turmoil::Builder::new();
@@ -214,292 +797,390 @@ pub fn run(sc: &Scenario) -> Outcome {
     if sc.random_order {
         b.enable_random_order();
     }
-    let mut sim = b.build();
-    let mut live: Vec<Live> = Vec::new();
-    let mut handles: Vec<Handle> = Vec::new();
-    let mut e: u64 = 0; // steps executed so far
+    let mut r = Run {
+        sim: b.build(),
+        m: Model { tick, dur, sws: Vec::new() },
+        tr: Vec::new(),
+        fr: BTreeSet::from([World::new()]),
+        e: 0,
+        out: Outcome::ok(),
+        lifecycle: false,
+    };
     let mut kinds = BTreeSet::new();
     let mut boundary = false;
     let mut near_deadline = false;
     let kstar = dur / tick + 1;
+    // after an error only the poll oracle goes on (continuing a failed simulation is outside
+    // the outcome clauses, but finished / crashed software must stay unpolled all the same)
+    let mut tail = false;
 
-    for (pi, ph) in sc.phases.iter().enumerate() {
-        for sw in &ph.register {
-            let idx = live.len();
-            let progress = Rc::new(Cell::new(0));
-            let done = Rc::new(Cell::new(false));
-            let name = format!("s{idx}");
-            if sw.client {
-                sim.client(name, software(sw.clone(), idx, progress.clone(), done.clone()));
-            } else {
-                let (s2, p2, d2) = (sw.clone(), progress.clone(), done.clone());
-                sim.host(name, move || software(s2.clone(), idx, p2.clone(), d2.clone()));
+    'phases: for (pi, ph) in sc.phases.iter().enumerate() {
+        if !tail {
+            for sw in &ph.register {
+                let idx = r.tr.len();
+                let st = Arc::new(SwState {
+                    idx,
+                    inc: AtomicU32::new(0),
+                    dead_upto: AtomicU32::new(0),
+                    main_done: AtomicU32::new(0),
+                    polls: AtomicU64::new(0),
+                    dead_polls: AtomicU64::new(0),
+                    first_dead_poll: Mutex::new(None),
+                });
+                let name = format!("s{idx}");
+                if sw.client {
+                    r.sim.client(name, software(sw.clone(), idx, st.clone()));
+                } else {
+                    let (s2, st2) = (sw.clone(), st.clone());
+                    r.sim.host(name, move || software(s2.clone(), idx, st2.clone()));
+                }
+                let (ms, amb) = MSw::start(sw, r.e, tick);
+                boundary |= amb;
+                for e in ms.main.iter().map(|m| &m.1).chain(ms.bombs.iter()) {
+                    if e.first + 1 >= kstar && e.first <= kstar + 1 {
+                        near_deadline = true;
+                    }
+                }
+                kinds.insert(format!("{:?}", sw.kind));
+                if sw.bg || !sw.tasks.is_empty() {
+                    r.out.label(if sw.client { "client-with-spawned-tasks" } else { "host-with-spawned-tasks" });
+                    if matches!(sw.kind, Kind::Ok | Kind::Err) {
+                        r.out.label("main-future-finishes-before-its-tasks");
+                    }
+                }
+                for t in &sw.tasks {
+                    r.out.label(format!("task-{:?}-{}", t.kind, if t.local { "spawn_local" } else { "spawn" }));
+                }
+                r.m.sws.push(ms);
+                r.tr.push(Track { sw: sw.clone(), st, crashed: false });
             }
-            let t = sw.t_ms as u64;
-            let cand = if sw.kind == Kind::Never {
-                vec![]
-            } else if t == 0 {
-                vec![e + 1]
-            } else if t % tick == 0 {
-                boundary = true;
-                vec![e + t / tick, e + t / tick + 1]
-            } else {
-                vec![e + t.div_ceil(tick)]
-            };
-            if cand.iter().any(|c| *c + 1 >= kstar && *c <= kstar + 1) {
-                near_deadline = true;
-            }
-            kinds.insert(format!("{:?}", sw.kind));
-            live.push(Live {
-                idx,
-                client: sw.client,
-                kind: sw.kind,
-                cand,
-                crashed: false,
-                finished: false,
-            });
-            handles.push(Handle {
-                progress,
-                done,
-                frozen_at: None,
-            });
         }
         for c in &ph.crash {
-            if *c < live.len() && !live[*c].client {
-                sim.crash(format!("s{c}"));
-                // a host whose software already finished stays finished
-                if !live[*c].finished {
-                    live[*c].crashed = true;
-                }
-                handles[*c].frozen_at = Some(handles[*c].progress.get());
-                out.label("crashed-host");
+            if !r.ctl(CtlKind::Crash, *c, false) {
+                return r.out;
             }
         }
         for c in &ph.bounce {
-            if *c < live.len() && !live[*c].client {
-                sim.bounce(format!("s{c}"));
-                let sw = sc.phases.iter().flat_map(|p| p.register.iter()).nth(*c).cloned().unwrap();
-                let t = sw.t_ms as u64;
-                live[*c].cand = if sw.kind == Kind::Never {
-                    vec![]
-                } else if t == 0 {
-                    vec![e + 1]
-                } else if t % tick == 0 {
-                    boundary = true;
-                    vec![e + t / tick, e + t / tick + 1]
-                } else {
-                    vec![e + t.div_ceil(tick)]
-                };
-                live[*c].crashed = false;
-                live[*c].finished = false;
-                handles[*c].done.set(false);
-                handles[*c].frozen_at = None;
-                out.label("bounced-host");
-                if matches!(sw.kind, Kind::Panic | Kind::PanicSpawned) {
-                    out.label("panic-in-restarted-host");
-                }
+            if !r.ctl(CtlKind::Bounce, *c, false) {
+                return r.out;
             }
         }
-        // softwares that finished in earlier phases are no longer live for the model
-        let model_live: Vec<Live> = live
-            .iter()
-            .map(|l| Live {
-                idx: l.idx,
-                client: l.client,
-                kind: l.kind,
-                cand: l.cand.clone(),
-                crashed: l.crashed,
-                finished: l.finished,
-            })
-            .collect();
-        let adm = admissible(&model_live, e, tick, dur, ph.use_run);
 
-        // ---- execute
-        let mut frozen_fail: Option<String> = None;
-        let got: Result<Result<u64, String>, ()> = catch_unwind(AssertUnwindSafe(|| {
-            if ph.use_run {
-                sim.run().map(|_| 0u64).map_err(|e| e.to_string())
+        if tail {
+            // poll oracle only
+            r.out.label("tail-after-error");
+            let n = if ph.steps > 0 { ph.steps.min(24) } else { 6 };
+            for s in 0..n {
+                for op in ph.ops.iter().filter(|op| op.at == s && s > 0) {
+                    if !r.ctl(op.kind, op.host, true) {
+                        return r.out;
+                    }
+                }
+                let sim = &mut r.sim;
+                let got = catch_unwind(AssertUnwindSafe(|| sim.step().map(|_| ()).map_err(|e| e.to_string())));
+                if r.dead_poll() {
+                    return r.out;
+                }
+                match got {
+                    Err(_) => {
+                        crate::engine::take_last_panic();
+                        break 'phases;
+                    }
+                    Ok(Err(msg)) if msg.starts_with('B') => {
+                        r.classify_err(&msg, false);
+                        return r.out;
+                    }
+                    _ => {}
+                }
+                r.bury_finished();
+            }
+            continue;
+        }
+
+        if ph.use_run {
+            // ---- run()
+            let any_client = r.tr.iter().any(|t| t.sw.client);
+            let term: Vec<(Res, World)> = if !any_client {
+                r.fr.iter().map(|w| (Res::Ok(r.e), w.clone())).collect()
             } else {
-                let mut steps = 0u64;
-                loop {
-                    let r = sim.step();
-                    steps += 1;
-                    // progress of finished/crashed software must stay frozen
-                    for (i, h) in handles.iter_mut().enumerate() {
-                        match h.frozen_at {
-                            Some(v) => {
-                                if h.progress.get() != v && frozen_fail.is_none() {
-                                    frozen_fail = Some(format!(
-                                        "software s{i} finished or crashed earlier but its background task advanced {v} -> {}",
-                                        h.progress.get()
-                                    ));
-                                }
-                            }
-                            None => {
-                                if h.done.get() {
-                                    h.frozen_at = Some(h.progress.get());
-                                }
-                            }
-                        }
-                    }
-                    match r {
-                        Ok(true) => return Ok(steps),
-                        Ok(false) => {
-                            if steps > 100_000 {
-                                return Err("harness: step loop did not end".into());
-                            }
-                        }
-                        Err(e) => return Err(e.to_string()),
+                match r.m.run_offline(&r.fr, r.e) {
+                    Some(t) => t,
+                    None => {
+                        r.out.label("model-gave-up-too-ambiguous");
+                        break 'phases;
                     }
                 }
-            }
-        }))
-        .map_err(|_| ());
-        if let Some(f) = frozen_fail {
-            out.fail("finished-or-crashed-software-polled-again", f);
-            return out;
-        }
-        let el = sim.elapsed().as_millis() as u64;
-        let actual = match &got {
-            Err(()) => {
-                crate::engine::take_last_panic();
-                // which step? unknown from outside; accept any admissible Panic
-                adm.iter().find(|r| matches!(r, Res::Panic(_))).cloned().unwrap_or(Res::Panic(0))
-            }
-            Ok(Ok(_)) => {
-                if el % tick != 0 {
-                    out.fail("elapsed-not-multiple-of-tick", format!("elapsed {el}ms tick {tick}"));
-                    return out;
-                }
-                Res::Ok(el / tick)
-            }
-            Ok(Err(msg)) => {
-                if msg.starts_with("Ran for duration") {
-                    Res::ErrDuration(el / tick)
-                } else if let Some(n) = msg.strip_prefix('E').and_then(|s| s.parse::<usize>().ok()) {
-                    // erroring step leaves elapsed at (k-1)*tick or k*tick: find an admissible k
-                    let k = adm
-                        .iter()
-                        .filter_map(|r| match r {
-                            Res::ErrSw(i, k) if *i == n && (*k == el / tick || *k == el / tick + 1) => Some(*k),
-                            _ => None,
-                        })
-                        .next()
-                        .unwrap_or(el / tick + 1);
-                    Res::ErrSw(n, k)
-                } else if adm.iter().any(|r| matches!(r, Res::Panic(_))) {
-                    out.fail("software-panic-returned-as-error-instead-of-unwinding", format!("run returned Err({msg:?}) where a host/client panic had to surface as a panic of the caller; admissible {adm:?}"));
-                    return out;
-                } else {
-                    out.fail("unknown-error", format!("run returned unexpected error {msg:?}"));
-                    return out;
-                }
-            }
-        };
-        if !adm.contains(&actual) {
-            let sig = match (&actual, adm.iter().next()) {
-                (Res::Ok(_), Some(Res::Ok(_))) => "ok-at-wrong-elapsed",
-                (Res::Ok(_), _) => "ok-but-model-says-error",
-                (Res::ErrDuration(_), Some(Res::Ok(_))) => "duration-error-but-clients-finished-in-time",
-                (Res::ErrDuration(_), _) => "duration-error-unexpected",
-                (Res::ErrSw(..), _) => "software-error-unexpected",
-                (Res::Panic(_), _) => "panic-unexpected",
             };
-            out.fail(
-                sig,
-                format!("phase {pi}: result {actual:?} (raw {got:?}, elapsed {el}ms) not in admissible set {adm:?}"),
-            );
-            return out;
-        }
-        match actual {
-            Res::Ok(k) => {
-                out.label("phase-ok");
-                if !(ph.use_run && !live.iter().any(|l| l.client)) {
-                    e = k;
+            let adm: BTreeSet<Res> = term.iter().map(|t| t.0.clone()).collect();
+            let sim = &mut r.sim;
+            let got = catch_unwind(AssertUnwindSafe(|| sim.run().map_err(|e| e.to_string())));
+            if r.dead_poll() {
+                return r.out;
+            }
+            let el = r.sim.elapsed().as_millis() as u64;
+            let may_panic = adm.iter().any(|x| matches!(x, Res::Panic(_)));
+            let actual = match &got {
+                Err(_) => {
+                    crate::engine::take_last_panic();
+                    // which step? unknown from outside; accept any admissible Panic
+                    adm.iter().find(|x| matches!(x, Res::Panic(_))).cloned().unwrap_or(Res::Panic(0))
                 }
-                // everything that finished up to step k is no longer live
-                for l in live.iter_mut() {
-                    if l.crashed || l.finished {
-                        continue;
+                Ok(Ok(())) => {
+                    if el % tick != 0 {
+                        r.out.fail("elapsed-not-multiple-of-tick", format!("elapsed {el}ms tick {tick}"));
+                        return r.out;
                     }
-                    if l.cand.iter().all(|f| *f <= e) && !l.cand.is_empty() {
-                        l.finished = true; // never polled again
-                    } else if l.cand.iter().any(|f| *f <= e) {
-                        // ambiguous boundary finish right at the end of the run: stop here
-                        out.label("stopped-at-ambiguous-boundary");
-                        out.nontrivial = kinds.len() >= 2 || boundary || near_deadline;
-                        return out;
+                    Res::Ok(el / tick)
+                }
+                Ok(Err(msg)) => match r.classify_err(msg, may_panic) {
+                    None => return r.out,
+                    Some(Out::ErrDuration) => Res::ErrDuration(el / tick),
+                    Some(Out::ErrSw(n)) => {
+                        // the erroring step leaves elapsed at (k-1)*tick or k*tick: find an admissible k
+                        let k = adm
+                            .iter()
+                            .filter_map(|x| match x {
+                                Res::ErrSw(i, k) if *i == n && (*k == el / tick || *k == el / tick + 1) => Some(*k),
+                                _ => None,
+                            })
+                            .next()
+                            .unwrap_or(el / tick + 1);
+                        Res::ErrSw(n, k)
+                    }
+                    Some(_) => unreachable!(),
+                },
+            };
+            if !adm.contains(&actual) {
+                let sig = match (&actual, adm.iter().next()) {
+                    (Res::Ok(_), Some(Res::Ok(_))) => "ok-at-wrong-elapsed",
+                    (Res::Ok(_), _) => "ok-but-model-says-error",
+                    (Res::ErrDuration(_), Some(Res::Ok(_))) => "duration-error-but-clients-finished-in-time",
+                    (Res::ErrDuration(_), _) => "duration-error-unexpected",
+                    (Res::ErrSw(..), _) => "software-error-unexpected",
+                    (Res::Panic(_), _) => "panic-unexpected",
+                };
+                r.out.fail(
+                    sig,
+                    format!("phase {pi}: result {actual:?} (raw {got:?}, elapsed {el}ms) not in admissible set {adm:?}"),
+                );
+                return r.out;
+            }
+            match actual {
+                Res::Ok(k) => {
+                    r.out.label("phase-ok");
+                    if any_client {
+                        r.e = k;
+                    }
+                    let done = r.done_flags();
+                    let next: BTreeSet<World> = term
+                        .into_iter()
+                        .filter(|(x, w)| *x == actual && r.m.consistent(w, k, &done))
+                        .map(|(_, w)| w)
+                        .collect();
+                    if next.is_empty() {
+                        r.out.fail(
+                            "finish-step-outside-model-window",
+                            format!("phase {pi}: run returned Ok after {k} steps with returned main futures {done:?}; no admissible attribution of the finishes to steps matches"),
+                        );
+                        return r.out;
+                    }
+                    r.fr = next;
+                    r.bury_finished();
+                }
+                Res::ErrDuration(_) => {
+                    r.out.label("duration-error");
+                    r.bury_finished();
+                    tail = true;
+                }
+                Res::ErrSw(..) => {
+                    r.out.label("software-error");
+                    r.bury_finished();
+                    tail = true;
+                }
+                Res::Panic(_) => {
+                    r.out.label("panic");
+                    break 'phases;
+                }
+            }
+        } else {
+            // ---- step() loop
+            r.out.label(if ph.steps > 0 { "step-n-mode" } else { "step-mode" });
+            let mut s: u32 = 0;
+            loop {
+                for op in ph.ops.iter().filter(|op| op.at == s && s > 0) {
+                    if !r.ctl(op.kind, op.host, true) {
+                        return r.out;
+                    }
+                }
+                let obs = match r.one_step(pi) {
+                    Err(()) => return r.out,
+                    Ok(None) => {
+                        r.out.label("model-gave-up-too-ambiguous");
+                        break 'phases;
+                    }
+                    Ok(Some(o)) => o,
+                };
+                s += 1;
+                match obs {
+                    Obs::Panic => {
+                        r.out.label("panic");
+                        break 'phases;
+                    }
+                    Obs::Err(msg) => {
+                        r.out.label(if msg.starts_with("Ran for") { "duration-error" } else { "software-error" });
+                        tail = true;
+                        break;
+                    }
+                    Obs::Ok(fin) => {
+                        if ph.steps == 0 && fin {
+                            r.out.label("phase-ok");
+                            break;
+                        }
+                        if ph.steps > 0 && s >= ph.steps {
+                            r.out.label("phase-ok");
+                            if fin {
+                                r.out.label("steps-after-completion");
+                            }
+                            break;
+                        }
+                        if s > 100_000 {
+                            r.out.fail("harness-step-loop-did-not-end", "step loop did not end");
+                            return r.out;
+                        }
                     }
                 }
             }
-            Res::ErrDuration(_) => {
-                out.label("duration-error");
-                break;
-            }
-            Res::ErrSw(..) => {
-                out.label("software-error");
-                break;
-            }
-            Res::Panic(_) => {
-                out.label("panic");
-                break;
-            }
         }
-        if !ph.use_run {
-            out.label("step-mode");
-        }
-        if pi > 0 {
-            out.label("second-run");
+        if pi > 0 && !tail {
+            r.out.label("second-run");
         }
     }
+    // nothing that was finished / crashed / replaced may have been polled, whatever the outcome
+    if r.dead_poll() {
+        return r.out;
+    }
+    for t in &r.tr {
+        // a bomb that never went off because its software had finished or was stopped first
+        if t.st.inc.load(Relaxed) > 0 && t.sw.tasks.iter().any(|x| x.kind == TaskKind::Bomb) && t.st.done() {
+            r.out.label("bomb-outlived-its-software");
+        }
+    }
+    r.out.count("polls", r.tr.iter().map(|t| t.st.polls.load(Relaxed)).sum());
     if boundary {
-        out.label("boundary-finish");
+        r.out.label("boundary-finish");
     }
     if near_deadline {
-        out.label("finish-near-duration");
+        r.out.label("finish-near-duration");
     }
     if sc.random_order {
-        out.label("random-order");
+        r.out.label("random-order");
     }
-    out.nontrivial = kinds.len() >= 2 || boundary || near_deadline;
-    out
+    r.out.nontrivial = kinds.len() >= 2 || boundary || near_deadline || r.lifecycle;
+    r.out
 }
 
-fn sw_strategy(tick: u32, dur: u32) -> BoxedStrategy<Sw> {
-    let t = prop_oneof![
+// ------------------------------------------------------------------------------------------
+// generators
+// ------------------------------------------------------------------------------------------
+
+fn t_strategy(tick: u32, dur: u32, early: u32) -> BoxedStrategy<u32> {
+    let tk = tick.max(1);
+    if early == 0 {
+        // the distribution of the first version of this check
+        return prop_oneof![
+            3 => 0u32..=(dur + 2 * tick + 3),
+            2 => (0u32..=4, 0u32..3).prop_map(move |(d, s)| (dur / tk * tk + s * tick).saturating_sub(2) + d),
+            1 => (0u32..=(dur / tk + 2)).prop_map(move |k| k * tick),
+        ]
+        .boxed();
+    }
+    prop_oneof![
         3 => 0u32..=(dur + 2 * tick + 3),
-        2 => (0u32..=4, 0u32..3).prop_map(move |(d, s)| (dur / tick.max(1) * tick.max(1) + s * tick).saturating_sub(2) + d),
-        1 => (0u32..=(dur / tick.max(1) + 2)).prop_map(move |k| k * tick),
-    ];
+        2 => (0u32..=4, 0u32..3).prop_map(move |(d, s)| (dur / tk * tk + s * tick).saturating_sub(2) + d),
+        1 => (0u32..=(dur / tk + 2)).prop_map(move |k| k * tick),
+        early => 0u32..=(3 * tick),
+    ]
+    .boxed()
+}
+
+fn task_strategy(tick: u32, dur: u32) -> BoxedStrategy<Task> {
     (
+        prop_oneof![
+            3 => Just(TaskKind::Ticker),
+            2 => Just(TaskKind::Tcp),
+            1 => Just(TaskKind::Udp),
+            2 => Just(TaskKind::Bomb),
+        ],
+        t_strategy(tick, dur, 2),
         any::<bool>(),
-        t,
+    )
+        .prop_map(|(kind, t_ms, local)| Task { kind, t_ms: if kind == TaskKind::Bomb { t_ms } else { 0 }, local })
+        .boxed()
+}
+
+/// `life`: biased towards the lifecycle class — hosts whose main future finishes early while
+/// tasks it spawned are still alive.
+fn sw_strategy(tick: u32, dur: u32, life: bool) -> BoxedStrategy<Sw> {
+    let tasks = if life {
+        proptest::collection::vec(task_strategy(tick, dur), 1..4).boxed()
+    } else {
+        prop_oneof![
+            3 => Just(Vec::new()),
+            2 => proptest::collection::vec(task_strategy(tick, dur), 1..3),
+        ]
+        .boxed()
+    };
+    let kind = if life {
+        prop_oneof![
+            8 => Just(Kind::Ok),
+            2 => Just(Kind::Err),
+            2 => Just(Kind::Never),
+            1 => Just(Kind::Panic),
+            1 => Just(Kind::PanicSpawned),
+        ]
+        .boxed()
+    } else {
         prop_oneof![
             6 => Just(Kind::Ok),
             2 => Just(Kind::Err),
             2 => Just(Kind::Never),
             1 => Just(Kind::Panic),
             1 => Just(Kind::PanicSpawned),
-        ],
-        any::<bool>(),
-    )
-        .prop_map(|(client, t_ms, kind, bg)| {
-            // Never-finishing clients make every case a duration error; keep them rarer
-            Sw { client, t_ms, kind, bg }
-        })
+        ]
+        .boxed()
+    };
+    let client = if life { prop_oneof![2 => Just(false), 1 => Just(true)].boxed() } else { any::<bool>().boxed() };
+    (client, t_strategy(tick, dur, if life { 6 } else { 0 }), kind, any::<bool>(), tasks)
+        .prop_map(|(client, t_ms, kind, bg, tasks)| Sw { client, t_ms, kind, bg, tasks })
         .boxed()
 }
 
-pub fn strategy() -> BoxedStrategy<Scenario> {
+fn ctl_strategy() -> BoxedStrategy<Ctl> {
+    (
+        1u32..=14,
+        prop_oneof![Just(CtlKind::Crash), Just(CtlKind::Bounce), Just(CtlKind::Bounce), Just(CtlKind::CrashBounce)],
+        0usize..8,
+    )
+        .prop_map(|(at, kind, host)| Ctl { at, kind, host })
+        .boxed()
+}
+
+fn scenario_strategy(life: bool) -> BoxedStrategy<Scenario> {
     (1u32..=12, 1u32..=80, any::<u64>(), any::<bool>())
-        .prop_flat_map(|(tick_ms, duration_ms, seed, random_order)| {
+        .prop_flat_map(move |(tick_ms, duration_ms, seed, random_order)| {
             let ph = (
-                proptest::collection::vec(sw_strategy(tick_ms, duration_ms), 0..5),
+                proptest::collection::vec(sw_strategy(tick_ms, duration_ms, life), 0..5),
                 proptest::collection::vec(0usize..8, 0..2),
-                any::<bool>(),
-                proptest::collection::vec(0usize..8, 0..2),
+                if life { prop_oneof![1 => Just(true), 3 => Just(false)].boxed() } else { any::<bool>().boxed() },
+                proptest::collection::vec(0usize..8, if life { 0..3 } else { 0..2 }),
+                if life {
+                    prop_oneof![2 => Just(0u32), 1 => 1u32..=20, 2 => 2u32..=12].boxed()
+                } else {
+                    prop_oneof![2 => Just(0u32), 1 => 1u32..=20].boxed()
+                },
+                proptest::collection::vec(ctl_strategy(), if life { 0..4 } else { 0..2 }),
             )
-                .prop_map(|(mut register, crash, use_run, bounce)| {
+                .prop_map(|(mut register, crash, use_run, bounce, steps, ops)| {
                     // at most one never-finishing client per phase, and not in most phases
                     let mut seen = false;
                     for s in register.iter_mut() {
@@ -510,9 +1191,13 @@ pub fn strategy() -> BoxedStrategy<Scenario> {
                             seen = true;
                         }
                     }
-                    Phase { register, crash, use_run, bounce }
+                    if use_run {
+                        Phase { register, crash, use_run, bounce, steps: 0, ops: Vec::new() }
+                    } else {
+                        Phase { register, crash, use_run, bounce, steps, ops }
+                    }
                 });
-            proptest::collection::vec(ph, 1..4).prop_map(move |phases| Scenario {
+            proptest::collection::vec(ph, if life { 2..5 } else { 1..4 }).prop_map(move |phases| Scenario {
                 tick_ms,
                 duration_ms,
                 seed,
@@ -523,21 +1208,30 @@ pub fn strategy() -> BoxedStrategy<Scenario> {
         .boxed()
 }
 
+pub fn strategy() -> BoxedStrategy<Scenario> {
+    scenario_strategy(false)
+}
+
 /// Clamp a structurally decoded scenario into the generator's domain (fuzz tier).
 pub fn fuzz_sanitize(sc: &mut Scenario) -> bool {
     sc.tick_ms = 1 + sc.tick_ms % 12;
     sc.duration_ms = 1 + sc.duration_ms % 80;
-    sc.phases.truncate(3);
+    sc.phases.truncate(4);
+    let tmax = sc.duration_ms + 2 * sc.tick_ms + 4;
     for ph in sc.phases.iter_mut() {
         ph.register.truncate(4);
         let mut seen_never = false;
         for s in ph.register.iter_mut() {
-            s.t_ms %= sc.duration_ms + 2 * sc.tick_ms + 4;
+            s.t_ms %= tmax;
             if s.client && s.kind == Kind::Never {
                 if seen_never {
                     s.client = false;
                 }
                 seen_never = true;
+            }
+            s.tasks.truncate(3);
+            for t in s.tasks.iter_mut() {
+                t.t_ms = if t.kind == TaskKind::Bomb { t.t_ms % tmax } else { 0 };
             }
         }
         ph.crash.truncate(2);
@@ -548,6 +1242,16 @@ pub fn fuzz_sanitize(sc: &mut Scenario) -> bool {
         for c in ph.bounce.iter_mut() {
             *c %= 8;
         }
+        ph.steps %= 21;
+        ph.ops.truncate(3);
+        for op in ph.ops.iter_mut() {
+            op.at = 1 + op.at % 14;
+            op.host %= 8;
+        }
+        if ph.use_run {
+            ph.steps = 0;
+            ph.ops.clear();
+        }
     }
     !sc.phases.is_empty()
 }
@@ -555,13 +1259,16 @@ pub fn fuzz_sanitize(sc: &mut Scenario) -> bool {
 fn check(tier: Tier, seed: u64) -> i32 {
     let ctx = Ctx::new("C11", tier, seed, "exploration");
     ctx.replay_corpus(&replay);
-    ctx.random("outcomes", tier.pick(40_000, 600_000), &|| strategy(), &run);
+    ctx.random("outcomes", tier.pick(40_000, 600_000), &|| scenario_strategy(false), &run);
+    ctx.random("lifecycle", tier.pick(30_000, 300_000), &|| scenario_strategy(true), &run);
     ctx.finish(
-        "random scenarios of 1-3 register-then-run phases; each software is a client or host that finishes Ok / Err / never / panics (main future or spawned task) at a generated virtual time, optionally with a background ticker; run() or a step() loop; crashes between phases. The model enumerates the admissible outcome set (boundary finishes either adjacent step; same-step failures either order). Non-trivial = >=2 outcome kinds present, or a finish exactly on a step boundary, or a finish within one step of the duration limit. Distinct by scenario hash.",
+        "random scenarios of 1-4 register-then-run phases; each software is a client or host whose main future finishes Ok / Err / never / panics at a generated virtual time and which may spawn tasks (spawn_local or tokio::spawn) that outlive the main future: millisecond tickers, holders of a TCP listener / UDP socket bound by the main future, delayed panics; a phase is run(), a step() loop until completion is reported, or exactly n step() calls; hosts are crashed / bounced / crashed+bounced before a phase and between two steps of a step-mode phase, whether they are running, finished or crashed. Sub-tier `lifecycle` is the same generator biased to hosts that finish early with live tasks and to more controller actions. Oracles: (1) set-valued outcome model stepped with the simulation (boundary finishes either adjacent step; same-step failures of different softwares either order; late panics of finished / crashed / replaced incarnations excluded), compared with every step() result, every run() result and Sim::elapsed; (2) every future of every software records its polls per incarnation: none may be polled after its incarnation finished (from the end of that step), was crashed or was replaced by a bounce; (3) a restarted software must be able to bind the port its dead incarnation held. Non-trivial = >=2 outcome kinds present, or a finish exactly on a step boundary, or a finish within one step of the duration limit, or a crash/bounce of a finished or crashed host or of a host with spawned tasks. Distinct by scenario hash.",
         &[
             "built with --cfg tokio_unstable (panic forwarding)",
-            "the step in which a panic surfaced cannot be observed from outside; any admissible panic step is accepted",
-            "after an error or panic the scenario stops (continuing a failed simulation is not part of the property)",
+            "the step in which a panic surfaced inside run() cannot be observed from outside; any admissible panic step is accepted",
+            "after an error the outcome model stops (continuing a failed simulation is not part of the property); the remaining phases only drive the poll oracle; after a panic the scenario stops",
+            "inside run() the harness cannot mark a software finished between two steps: polls after the finish are detected from the next harness-visible point on (step mode: the very next step)",
+            "every software runs on its own node, so a bind can only collide with an earlier incarnation of the same software",
         ],
     )
 }
